@@ -4,6 +4,7 @@ import (
 	"go/constant"
 	"go/token"
 	"go/types"
+	"os"
 
 	"golang.org/x/tools/go/ssa"
 )
@@ -447,7 +448,15 @@ func (c joinCtx) decide(b *ssa.BasicBlock, facts map[ssa.Value]bool) int {
 					}
 					pneg, pc = !pneg, u.X
 				}
-				if pc != v {
+				vv, vneg := v, false
+				for {
+					u, isU := vv.(*ssa.UnOp)
+					if !isU || u.Op != token.NOT {
+						break
+					}
+					vneg, vv = !vneg, u.X
+				}
+				if pc != vv {
 					continue
 				}
 				taken := 1 // condition true on Succs[0]
@@ -455,6 +464,9 @@ func (c joinCtx) decide(b *ssa.BasicBlock, facts map[ssa.Value]bool) int {
 					taken = 0
 				}
 				if pneg {
+					taken = 1 - taken
+				}
+				if vneg {
 					taken = 1 - taken
 				}
 				val = taken
@@ -811,7 +823,7 @@ func UnderMissingInput(in ssa.Instruction) bool {
 var NeverNilField func(f *types.Var) bool
 
 // DisableNilGuards switches the pruning of NilGuardEdges off (self-test).
-var DisableNilGuards bool
+var DisableNilGuards = os.Getenv("NVET_NONILGUARD") != ""
 
 // NilGuardEdges returns the edges taken when a value that the code around it
 // treats as always present - a parameter, an element of a slice being ranged
